@@ -192,6 +192,8 @@ def main_check(pid, tier, jobs, seed, replay=None, max_report=20, filt=None):
                     ntkeys.add(k)
             if r.get("ratio") is not None and r["verdict"] == OK:
                 worst = max(worst, r["ratio"])
+                if os.environ.get("VERIF_TOPRATIO") and r["ratio"] > float(os.environ["VERIF_TOPRATIO"]):
+                    print("RATIO", round(r["ratio"], 3), json.dumps(r.get("feat"), default=str)[:300])
             if r["verdict"] == UNSUP:
                 sig = f"{r.get('exc')}: {(r.get('msg') or '')[:80]}"
                 unsup_cells[sig] = unsup_cells.get(sig, 0) + 1
